@@ -68,14 +68,14 @@ class FreshLogFn(W.FreshFn):
 
 def gen_ops(rng, n, dict_source, k, flap):
     ops = []
-    kinds = ['get', 'get', 'get', 'getneg', 'slice_iter', 'iter', 'iter_k',
+    kinds = ['get', 'get', 'get', 'getneg', 'npget', 'slice_iter', 'iter', 'iter_k',
              'copy_get', 'copy_iter', 'fcopy_get', 'prefetch1', 'prefetchw',
              'mutate', 'mutate', 'it_open', 'it_next', 'it_next', 'it_next']
     if dict_source:
         kinds += ['key', 'key', 'items_iter']
     for _ in range(k):
         op = rng.choice(kinds)
-        if op in ('get', 'getneg', 'key', 'copy_get', 'fcopy_get'):
+        if op in ('get', 'getneg', 'npget', 'key', 'copy_get', 'fcopy_get'):
             ops.append([op, rng.randrange(n)])
         elif op == 'slice_iter':
             a = rng.randrange(0, n)
@@ -380,6 +380,10 @@ def _run_lazy(case, ds, ctx, m):
             if arg in m.frozen:
                 m.probes['negative_index_hits_positive_entry'] = 1
             acc(arg, lambda: ds[arg - n], 'negative_index')
+        elif op == 'npget':
+            import numpy as _np
+            acc(arg, lambda: ds[_np.int64(arg) if arg % 2 else _np.int32(arg - n)],
+                'numpy_integer_index')
         elif op == 'key':
             if arg in m.frozen:
                 m.probes['key_hits_index_entry'] = 1
@@ -565,7 +569,7 @@ def shrink(case):
         n = c['n']
         ops = []
         for op, arg in c['ops']:
-            if op in ('get', 'getneg', 'key', 'copy_get', 'fcopy_get') and arg >= n:
+            if op in ('get', 'getneg', 'npget', 'key', 'copy_get', 'fcopy_get') and arg >= n:
                 continue
             if op == 'slice_iter':
                 arg = [min(arg[0], n), min(arg[1], n)]
